@@ -1,6 +1,6 @@
 (* C15  Parallel fan-out returns every result exactly once and in input order.
    Property theorems only; proofs live in theories/Pool_proofs.v. *)
-From Coq Require Import ZArith List Bool Arith.
+From Coq Require Import ZArith List Bool Arith Sorted.
 Import ListNotations.
 From MP Require Import Pool Pool_proofs.
 
@@ -121,3 +121,60 @@ Proof. exact drain_terminates_gen. Qed.
 Theorem forced_shutdown_blocking_get_refuted :
   drain_run true 1 false [DConsumer; DWorkerTake; DConsumer] = DStuck.
 Proof. exact drain_blocking_stuck. Qed.
+
+(* ---- capture mode: no SourceError is swallowed either *)
+
+(* When no layer raised a non-source exception: every SourceError is collected in layer order; if at least one
+   layer succeeded, the images are added bottom-up and - when something failed - the message image (-2) is put
+   on top; if none succeeded the request fails with "Could not get any sources" (-1).  For every completion
+   order and pool size. *)
+Theorem render_capture_source_errors_reported :
+  forall pool_size items arrival split,
+    is_perm arrival (length items) -> first_hard_exc items = None -> items <> [] ->
+    render_capture pool_size items arrival split =
+    match count_ok items with
+    | O => (nonblank items, source_errs items, Some (-1)%Z)
+    | S _ => (match source_errs items with [] => nonblank items | _ => nonblank items ++ [(-2)%Z] end,
+              source_errs items, None)
+    end.
+Proof. exact render_capture_reports. Qed.
+
+(* ---- TileCreator._query_sources (cache/tile.py): the sources of a cache are queried through the pool *)
+
+(* Nothing fails: for every completion order the merger receives exactly the images that were delivered, in
+   source order, each paired with the coverage (index) of the source it came from. *)
+Theorem query_sources_consumer :
+  forall items arrival split,
+    is_perm arrival (length items) -> all_ok items ->
+    query_sources items arrival split = (indexed_nonblank 0 items, None).
+Proof. exact query_sources_ok. Qed.
+
+Theorem query_sources_pairs_image_with_own_coverage :
+  forall items v k, In (v, k) (indexed_nonblank 0 items) -> value_of items k = Ok v /\ (0 <= v)%Z.
+Proof. exact query_sources_own_coverage. Qed.
+
+Theorem query_sources_nothing_lost :
+  forall items k v, nth k items (Exc 0) = Ok v -> (0 <= v)%Z -> In (v, k) (indexed_nonblank 0 items).
+Proof. exact query_sources_complete. Qed.
+
+Theorem query_sources_source_order :
+  forall items, StronglySorted lt (map snd (indexed_nonblank 0 items)).
+Proof. exact query_sources_sorted. Qed.
+
+(* A failing source: for every completion order one of the sources' own exceptions reaches the caller and
+   nothing is merged. *)
+Theorem query_sources_failure_not_swallowed :
+  forall items arrival split e0,
+    is_perm arrival (length items) -> first_exc items = Some e0 ->
+    exists e, In (Exc e) items /\ query_sources items arrival split = ([], Some e).
+Proof. exact query_sources_failure. Qed.
+
+(* ---- bulk loads / stores of the S3 and Azure back-ends: all(pool.map(load_tile, tiles)) *)
+
+(* When the call returns, the caller has received the result of every tile (so every load has finished), and
+   the value is "all loaded" - whatever the completion order and whichever tile is missing. *)
+Theorem bulk_load_complete_at_return :
+  forall pool_size items arrival split,
+    is_perm arrival (length items) -> all_ok items ->
+    bulk_io pool_size items arrival split = (forallb truthy items, length items, None).
+Proof. exact bulk_io_all. Qed.
